@@ -3,6 +3,7 @@ package main
 import (
 	"6502profiler/cpu"
 	"6502profiler/emuconfig"
+	"6502profiler/memory"
 	"6502profiler/verifier"
 	"fmt"
 	"os"
@@ -184,6 +185,9 @@ var observer = []uint8{
 
 const observerEntry1 = 27
 
+// with a trap address: INX; STA $7F00; INY; INY; STA $7F00; NOP; STX $7F00; LDX #1; INC $7EFF,X; BRK
+var trapObserver = []uint8{0xE8, 0x8D, 0x00, 0x7F, 0xC8, 0xC8, 0x8D, 0x00, 0x7F, 0xEA, 0x8E, 0x00, 0x7F, 0xA2, 0x01, 0xFE, 0xFF, 0x7E, 0x00}
+
 func apiCase(r *rng.R, dir string) string {
 	model := r.Intn(2)
 	spec := "Linear64K"
@@ -196,8 +200,16 @@ func apiCase(r *rng.R, dir string) string {
 	if r.Chance(20) {
 		loadAt = 0x0820
 	}
+	trap := r.Chance(30)
+	if trap && spec == "Linear16K" {
+		spec = "Linear32K"
+	}
+	code := observer
+	if trap {
+		code = trapObserver
+	}
 	entry := loadAt
-	if r.Bool() {
+	if r.Bool() && !trap {
 		entry = loadAt + observerEntry1
 	}
 	p1 := genApiOps(r, 2+r.Intn(8), flat)
@@ -212,6 +224,9 @@ func apiCase(r *rng.R, dir string) string {
 	var sb strings.Builder
 	sb.WriteString("out = {}\nfunction rec(x) out[#out+1] = tostring(x) end\n")
 	fmt.Fprintf(&sb, "function num_iterations() return %d end\n", iters)
+	if trap {
+		sb.WriteString("function trap(c) rec(get_cycles()); rec(c) end\n")
+	}
 	sb.WriteString("function arrange()\n")
 	for _, o := range p1 {
 		sb.WriteString("  " + o.lua() + "\n")
@@ -222,7 +237,7 @@ func apiCase(r *rng.R, dir string) string {
 	}
 	sb.WriteString("  local f = io.open(test_dir .. 'api_out.txt', 'w')\n  f:write(table.concat(out, ' '))\n  f:close()\n  return true\nend\n")
 	writeFile(dir, "api.lua", []byte(sb.String()))
-	bin := writeFile(dir, "api.bin", prg(uint16(loadAt), observer...))
+	bin := writeFile(dir, "api.bin", prg(uint16(loadAt), code...))
 	os.Remove(filepath.Join(dir, "api_out.txt"))
 
 	cfg := emuconfig.DefaultConfig()
@@ -238,7 +253,12 @@ func apiCase(r *rng.R, dir string) string {
 			return
 		}
 		tc := &verifier.TestCase{Name: "api", TestDriverSource: "api.a", TestScript: "api.lua"}
-		err = tc.Execute(c, &fakeAsm{bins: map[string]string{"api.a": bin}}, dir, nil, nil, "id")
+		var ph *memory.PlaceholderWrapper
+		if trap {
+			ph = memory.NewPlaceholderWrapper(c.Mem, 0x7F00)
+			c.Mem = ph.Wrapper
+		}
+		err = tc.Execute(c, &fakeAsm{bins: map[string]string{"api.a": bin}}, dir, nil, ph, "id")
 	})
 	res := "ok"
 	if crashed {
@@ -259,7 +279,11 @@ func apiCase(r *rng.R, dir string) string {
 		w2 = append(w2, x.wire())
 	}
 	count("luaapi." + spec)
-	return fmt.Sprintf("luaapi %d %s %x %d | %s | %s => %s | %s", model, spec, loadAt, iters, strings.Join(w1, " "), strings.Join(w2, " "), res, o)
+	tr := 0
+	if trap {
+		tr = 1
+	}
+	return fmt.Sprintf("luaapi %d %s %x %d %d | %s | %s => %s | %s", model, spec, loadAt, iters, tr, strings.Join(w1, " "), strings.Join(w2, " "), res, o)
 }
 
 func luaapiStream(seed uint64, n int) {
